@@ -114,7 +114,7 @@ fn manifest_jsonml(v: &JSONMLValue, buf: &mut String, opts: &XmlJsonmlFormat) ->
 				} else {
 					ToStringFormat.manifest(value)?
 				};
-				escape_string_xml_buf(&value, buf);
+				escape_string_xml_buf(&value, XmlContext::AttrValue, buf);
 				buf.push('"');
 			}
 			if !has_children && !opts.force_closing {
@@ -133,7 +133,7 @@ fn manifest_jsonml(v: &JSONMLValue, buf: &mut String, opts: &XmlJsonmlFormat) ->
 			Ok(())
 		}
 		JSONMLValue::String(s) => {
-			escape_string_xml_buf(s, buf);
+			escape_string_xml_buf(s, XmlContext::CharData, buf);
 			Ok(())
 		}
 	}
@@ -141,41 +141,48 @@ fn manifest_jsonml(v: &JSONMLValue, buf: &mut String, opts: &XmlJsonmlFormat) ->
 
 pub fn escape_string_xml(str: &str) -> String {
 	let mut out = String::new();
-	escape_string_xml_buf(str, &mut out);
+	escape_string_xml_buf(str, XmlContext::Plain, &mut out);
 	out
 }
 
-fn escape_string_xml_buf(str: &str, out: &mut String) {
-	if str.is_empty() {
-		return;
-	}
+/// Where the escaped string is going to be placed. An XML parser replaces a literal carriage
+/// return by a line feed, and literal tabs and line feeds inside of an attribute value by
+/// spaces, so those have to be written as character references to be read back unchanged.
+#[derive(Clone, Copy, PartialEq, Eq, PartialOrd, Ord)]
+enum XmlContext {
+	/// `std.escapeStringXml`: only the five predefined entities
+	Plain = 0,
+	/// Text between tags
+	CharData = 1,
+	/// Double-quoted attribute value
+	AttrValue = 2,
+}
+
+fn xml_escape(c: u8, ctx: XmlContext) -> Option<&'static str> {
+	Some(match c {
+		b'<' => "&lt;",
+		b'>' => "&gt;",
+		b'&' => "&amp;",
+		b'"' => "&quot;",
+		b'\'' => "&apos;",
+		b'\r' if ctx >= XmlContext::CharData => "&#13;",
+		b'\t' if ctx >= XmlContext::AttrValue => "&#9;",
+		b'\n' if ctx >= XmlContext::AttrValue => "&#10;",
+		_ => return None,
+	})
+}
+
+fn escape_string_xml_buf(str: &str, ctx: XmlContext, out: &mut String) {
 	let mut remaining = str;
-
-	let mut found = false;
-	while let Some(position) = remaining
+	while let Some((position, escaped)) = remaining
 		.bytes()
-		.position(|c| matches!(c, b'<' | b'>' | b'&' | b'"' | b'\''))
+		.enumerate()
+		.find_map(|(i, c)| Some((i, xml_escape(c, ctx)?)))
 	{
-		found = true;
-
 		let (plain, rem) = remaining.split_at(position);
 		out.push_str(plain);
-
-		out.push_str(match rem.as_bytes()[0] {
-			b'<' => "&lt;",
-			b'>' => "&gt;",
-			b'&' => "&amp;",
-			b'"' => "&quot;",
-			b'\'' => "&apos;",
-			_ => unreachable!("position() searches for those matches"),
-		});
-
+		out.push_str(escaped);
 		remaining = &rem[1..];
-	}
-	if !found {
-		// No match - no escapes required
-		out.push_str(str);
-		return;
 	}
 	out.push_str(remaining);
 }
